@@ -198,6 +198,16 @@ def algebra_shard(name, seed, n_examples):
                 coef = st.one_of(st.integers(-3, 3), st.sampled_from([1, 2, 4, 8, p - 1, p - 2, 1 << 20]))
                 n1 = draw(st.integers(12, 50))
                 a = [(draw(st.integers(0, nv - 1)), draw(coef)) for _ in range(n1)]
+                if draw(st.integers(0, 2)) == 0:
+                    # two sums over exactly the same set of variables, accumulated in different orders (x0..xn and xn..x0)
+                    vs_ = draw(st.permutations(list(range(nv))))[:draw(st.integers(8, nv))]
+                    a = [(v_, draw(coef)) for v_ in vs_]
+                    b = [(v_, draw(coef)) for v_ in draw(st.permutations(vs_))]
+                    withone = draw(st.booleans())
+                    ta, tb = fold(a), fold(b)
+                    if withone:
+                        ta, tb = ["add", ta, ["one"]], ["add", ["mul", ["one"], draw(coef)], tb]
+                    return [draw(st.sampled_from(["add", "sub"])), ta, tb]
                 b = []
                 for v_, c_ in draw(st.permutations(a))[:draw(st.integers(1, len(a)))]:
                     k_ = draw(st.integers(0, 3))
